@@ -113,7 +113,9 @@ def worker(args):
                 seen[o["name"]] = seen.get(o["name"], 0) + 1
                 out["refutations"].append({"bound": con.bounded, "obligation": o["name"], "kind": o["kind"], "label": o["label"],
                                            "path": o["path"], "model": o["model"], "replay": rp.replay(key, o["model"], o)})
-    elif bad and res.error is None:
+    elif (bad and res.error is None) or (res.error and "needs an invariant" in res.error):
+        # (a loop that has no invariant -- typically one a change has just added -- stops the proof; the bounded search, which
+        # unrolls loops, can still find a replayable failure of one of the function's clauses)
         # refutation pass: bounded unrolling + grounded quantifiers, only to search real failing inputs; its models are
         # candidates that count only when the native replay reproduces them
         done = set()
@@ -318,7 +320,20 @@ def report(prop, tier, seed, results, known, assumed, t0, verbose):
         for l in r["log"]:
             trusted.add(l)
         if r["error"]:
-            errors.append((r["key"], r["error"]))
+            rep_ = [x for x in r["refutations"] if "obligation" in x and x["replay"].get("reproduced")]
+            done_ = set()
+            for x in rep_:
+                if x["obligation"] in done_:
+                    continue
+                done_.add(x["obligation"])
+                fn = os.path.join(ROOT, "replays", prop, (x["obligation"] + ".json").replace("/", "_"))
+                json.dump({"property": prop, "function": r["key"], "obligation": x["obligation"], "status": "refuted", "verifier_output": [],
+                           "refutation_search": [x], "failing_input": x["model"], "native_replay": x["replay"],
+                           "note": "the proof run stopped (" + r["error"].splitlines()[0][:160] + "); found by the bounded search, which unrolls loops"},
+                          open(fn, "w"), indent=1, default=str)
+                violations.append((x["obligation"], fn, True))
+            if not rep_:
+                errors.append((r["key"], r["error"]))
             continue
         for o in r["obligations"]:
             if o["status"] == "discharged" and len(samples) < 6 and o["backend"] != "simplifier" and o.get("smt_head"):
